@@ -72,11 +72,14 @@ profile('peer-script', PP.gen_peer_script)
 
 profile('frag-grid', P.gen_frag_grid, grid=True)
 
+profile('core-close', P.gen_core_close, cancels=0.0)
+
 # property -> {'profiles': [(name, quick_runs, thorough_runs)], 'oracles': [...]}
 CHECKS = {
     'C01': {'profiles': [('core', 3000, 120000), ('core-msg', 1000, 40000), ('core-frag', 1500, 60000),
-                         ('core-stall', 1500, 60000), ('core-await', 1000, 40000)],
-            'oracles': [O.oracle_c01], 'level': 'exploration'},
+                         ('core-stall', 1500, 60000), ('core-await', 1000, 40000), ('core-close', 2000, 60000)],
+            'oracles': {'core': [O.oracle_c01], 'core-msg': [O.oracle_c01], 'core-frag': [O.oracle_c01], 'core-stall': [O.oracle_c01],
+                        'core-await': [O.oracle_c01], 'core-close': [O.oracle_c01_close]}, 'level': 'exploration'},
     'C03': {'profiles': [('core-frag', 2500, 100000), ('core-stall', 1000, 40000), ('core-msg', 500, 20000),
                          ('frag-grid', 4000, 'grid')],
             'oracles': [O.oracle_c03], 'level': 'exploration'},
